@@ -21,6 +21,7 @@ import (
 	"fmt"
 	"math"
 	"os"
+	"regexp"
 	"sort"
 	"strings"
 	"time"
@@ -136,6 +137,15 @@ func buildPool(tier string, seed int64) []pval {
 var binOps = []string{"+", "-", "*", "/", "%", "**", "&", "|", "^", "<<", ">>", "==", "!=", "===", "!==", "<", "<=", ">", ">=", "<=>", "&&", "||", "."}
 var compoundOps = map[string]bool{"+": true, "-": true, "*": true, "/": true, "%": true, "**": true, "&": true, "|": true, "^": true, "<<": true, ">>": true, ".": true}
 
+// opName gives the spelling of an operator inside finding keys (keys become file names).
+var opName = map[string]string{"+": "add", "-": "sub", "*": "mul", "/": "div", "%": "mod", "**": "pow", "&": "bitand", "|": "bitor", "^": "bitxor", "<<": "shl", ">>": "shr",
+	"==": "eq", "!=": "ne", "===": "identical", "!==": "notidentical", "<": "lt", "<=": "le", ">": "gt", ">=": "ge", "<=>": "spaceship", "&&": "and", "||": "or", ".": "concat"}
+// opFamily groups operators that share one implementation pattern; value / compound findings are
+// keyed by family so that one root cause gives one key.
+var opFamily = map[string]string{"+": "arith", "-": "arith", "*": "arith", "/": "div", "%": "mod", "**": "pow", "&": "bitwise", "|": "bitwise", "^": "bitwise", "<<": "shift", ">>": "shift",
+	"==": "equality", "!=": "equality", "===": "identity", "!==": "identity", "<": "ordering", "<=": "ordering", ">": "ordering", ">=": "ordering", "<=>": "spaceship", "&&": "logical", "||": "logical", ".": "concat"}
+var unName = map[string]string{"-": "neg", "+": "plus", "~": "bitnot", "!": "not", "(int)": "cast-int", "(float)": "cast-float", "(string)": "cast-string", "(bool)": "cast-bool"}
+
 // operator groups = shards (the laws relate operators of one group)
 var opGroups = [][]string{{"==", "!=", "===", "!=="}, {"<", "<=", ">", ">=", "<=>"}, {"+", "-", "*"}, {"/", "%", "**"}, {"&", "|", "^", "<<", ">>"}, {"&&", "||", "."}}
 
@@ -151,17 +161,17 @@ type ctxDef struct {
 
 var contexts = []ctxDef{
 	{"if", `if ({X}) { __r({S}, 1); } else { __r({S}, 0); }`, false},
-	{"while", `$n = 0; while ({X}) { $n = 1; break; } __r({S}, $n);`, false},
-	{"for", `$n = 0; for ($i = 0; {X}; $i = $i + 1) { $n = 1; break; } __r({S}, $n);`, false},
-	{"?:", `$r = {X} ? 1 : 0; __r({S}, $r);`, false},
-	{"!", `$r = !{X}; __r({S}, $r);`, true},
-	{"&&", `$r = {X} && true; __r({S}, $r);`, false},
-	{"||", `$r = {X} || false; __r({S}, $r);`, false},
-	{"(bool)", `$r = (bool){X}; __r({S}, $r);`, false},
-	{"&&rhs", `$r = true && {X}; __r({S}, $r);`, false},
-	{"||rhs", `$r = false || {X}; __r({S}, $r);`, false},
+	{"while", `$n{S} = 0; while ({X}) { $n{S} = 1; break; } __r({S}, $n{S});`, false},
+	{"for", `$n{S} = 0; for ($i{S} = 0; {X}; $i{S} = $i{S} + 1) { $n{S} = 1; break; } __r({S}, $n{S});`, false},
+	{"?:", `$r{S} = {X} ? 1 : 0; __r({S}, $r{S});`, false},
+	{"!", `$r{S} = !{X}; __r({S}, $r{S});`, true},
+	{"&&", `$r{S} = {X} && true; __r({S}, $r{S});`, false},
+	{"||", `$r{S} = {X} || false; __r({S}, $r{S});`, false},
+	{"(bool)", `$r{S} = (bool){X}; __r({S}, $r{S});`, false},
+	{"&&rhs", `$r{S} = true && {X}; __r({S}, $r{S});`, false},
+	{"||rhs", `$r{S} = false || {X}; __r({S}, $r{S});`, false},
 	{"elseif", `if (false) { __r({S}, 2); } elseif ({X}) { __r({S}, 1); } else { __r({S}, 0); }`, false},
-	{"do-while", `$n = 0; do { $n = $n + 1; if ($n > 1) { break; } } while ({X}); __r({S}, $n - 1);`, false},
+	{"do-while", `$n{S} = 0; do { $n{S} = $n{S} + 1; if ($n{S} > 1) { break; } } while ({X}); $m{S} = $n{S} - 1; __r({S}, $m{S});`, false},
 }
 
 // ---- case construction --------------------------------------------------------------------
@@ -200,7 +210,7 @@ func (w *world) index(name string) int {
 func (w *world) operand(form string, i int, varName string) (string, string, bool) {
 	switch form {
 	case "var":
-		return fmt.Sprintf("$%s = __v(%d); ", varName, i), "$" + varName, true
+		return fmt.Sprintf("$%s{S} = __v(%d); ", varName, i), "$" + varName + "{S}", true
 	case "call":
 		return "", fmt.Sprintf("__v(%d)", i), true
 	case "elem":
@@ -217,17 +227,20 @@ func (w *world) operand(form string, i int, varName string) (string, string, boo
 func (w *world) binJob(op, form string, l, r int) (exprsem.Job, bool) {
 	id := fmt.Sprintf("bin|%s|%s|%d|%d", op, form, l, r)
 	if form == "compound" {
-		return exprsem.Job{ID: id, Src: fmt.Sprintf("$x = __v(%d); $x %s= __v(%d); __r({S}, $x);", l, op, r)}, compoundOps[op]
+		return exprsem.Job{ID: id, Src: fmt.Sprintf("$x{S} = __v(%d); $x{S} %s= __v(%d); __r({S}, $x{S});", l, op, r)}, compoundOps[op]
+	}
+	if form == "self" { // $a op $a: both operands are the very same value object
+		return exprsem.Job{ID: id, Src: fmt.Sprintf("$a{S} = __v(%d); $r{S} = $a{S} %s $a{S}; __r({S}, $r{S});", l, op)}, l == r
 	}
 	if form == "swap" { // b op a written with variables (for the symmetry law)
-		return exprsem.Job{ID: id, Src: fmt.Sprintf("$a = __v(%d); $b = __v(%d); $r = $b %s $a; __r({S}, $r);", l, r, op)}, true
+		return exprsem.Job{ID: id, Src: fmt.Sprintf("$a{S} = __v(%d); $b{S} = __v(%d); $r{S} = $b{S} %s $a{S}; __r({S}, $r{S});", l, r, op)}, true
 	}
 	s1, x1, ok1 := w.operand(form, l, "a")
 	s2, x2, ok2 := w.operand(form, r, "b")
 	if !ok1 || !ok2 {
 		return exprsem.Job{}, false
 	}
-	return exprsem.Job{ID: id, Src: fmt.Sprintf("%s%s$r = %s %s %s; __r({S}, $r);", s1, s2, x1, op, x2)}, true
+	return exprsem.Job{ID: id, Src: fmt.Sprintf("%s%s$r{S} = %s %s %s; __r({S}, $r{S});", s1, s2, x1, op, x2)}, true
 }
 
 func (w *world) unJob(op, form string, i int) (exprsem.Job, bool) {
@@ -235,7 +248,7 @@ func (w *world) unJob(op, form string, i int) (exprsem.Job, bool) {
 	if !ok {
 		return exprsem.Job{}, false
 	}
-	return exprsem.Job{ID: fmt.Sprintf("un|%s|%s|%d", op, form, i), Src: fmt.Sprintf("%s$r = %s%s; __r({S}, $r);", s, op, x)}, true
+	return exprsem.Job{ID: fmt.Sprintf("un|%s|%s|%d", op, form, i), Src: fmt.Sprintf("%s$r{S} = %s%s; __r({S}, $r{S});", s, op, x)}, true
 }
 
 func (w *world) ctxJob(c ctxDef, form string, i int) (exprsem.Job, bool) {
@@ -251,12 +264,14 @@ func (w *world) identJob(form string, i int) (exprsem.Job, bool) {
 	if !ok {
 		return exprsem.Job{}, false
 	}
-	return exprsem.Job{ID: fmt.Sprintf("id|%s|%d", form, i), Src: fmt.Sprintf("%s$r = %s; __r({S}, $r);", s, x)}, true
+	return exprsem.Job{ID: fmt.Sprintf("id|%s|%d", form, i), Src: fmt.Sprintf("%s$r{S} = %s; __r({S}, $r{S});", s, x)}, true
 }
 
 // ---- records --------------------------------------------------------------------------------
 
 type failRec struct {
+	Forms  []string `json:"forms,omitempty"` // forms in which the cell failed (form-aggregated keys only)
+	AllF   bool     `json:"allf,omitempty"`  // failed in every form that exists for the cell
 	Key    string `json:"key"`
 	Clause string `json:"clause"`
 	Size   int    `json:"size"`
@@ -334,12 +349,35 @@ func crashKey(o string) string {
 
 func kinds(w *world, l, r int) string { return w.pool[l].V.K.String() + "," + w.pool[r].V.K.String() }
 
-func formsNote(failed, tried []string) string {
-	if len(failed) == len(tried) {
-		return ""
+// kindsFor: <=> is implemented by one symmetric Compare(), so its cells are keyed by the unordered pair.
+func kindsFor(w *world, op string, l, r int) string {
+	if op == "<=>" {
+		ks := []string{w.pool[l].V.K.String(), w.pool[r].V.K.String()}
+		sort.Strings(ks)
+		return strings.Join(ks, "~")
 	}
-	return ":form=" + strings.Join(failed, "+")
+	return kinds(w, l, r)
 }
+
+// lawKinds: laws are keyed by the kind for same-kind pairs and "mixed" otherwise.
+func lawKinds(w *world, l, r int) string {
+	if w.pool[l].V.K == w.pool[r].V.K {
+		return w.pool[l].V.K.String()
+	}
+	return "mixed-kinds"
+}
+
+
+// zeroSign: the compound law ignores the sign of a float zero (storing 0.0 over -0.0 is an
+// assignment matter, not an operator one).
+func zeroSign(o string) string {
+	if o == "f:-0" {
+		return "f:0"
+	}
+	return rePtr.ReplaceAllString(o, "0xPTR")
+}
+
+var rePtr = regexp.MustCompile(`0x[0-9a-f]{6,}`)
 
 // value-level finding for one form
 type hit struct {
@@ -406,6 +444,13 @@ type workerState struct {
 func (s *workerState) emitFail(key, clause string, size int, cs caseT, detail string) {
 	cs.Tier, cs.Seed = s.arg.Tier, s.arg.Seed
 	s.pw.Emit(rec{Kind: "fail", Fail: &failRec{Key: key, Clause: clause, Size: size, Case: cs, Detail: detail}})
+}
+
+// emitFormFail: a finding whose key gets a ":form=" suffix only if, over the whole run, it never
+// fails in all operand forms of a cell (decided by the parent, see formAgg).
+func (s *workerState) emitFormFail(key, clause string, size int, cs caseT, detail string, failed, tried []string) {
+	cs.Tier, cs.Seed = s.arg.Tier, s.arg.Seed
+	s.pw.Emit(rec{Kind: "fail", Fail: &failRec{Key: key, Clause: clause, Size: size, Case: cs, Detail: detail, Forms: failed, AllF: len(failed) == len(tried)}})
 }
 
 func (s *workerState) count(out map[string]string) {
@@ -497,7 +542,8 @@ func (s *workerState) binShard() {
 	ops := opGroups[s.arg.Group]
 	l := s.arg.L
 	nolit := s.litUnavailable()
-	allForms := append(append([]string{}, forms...), "compound", "swap")
+	allForms := append(append([]string{}, forms...), "self", "compound", "swap")
+	cellForms := append(append([]string{}, forms...), "self")
 	var jobs []exprsem.Job
 	for _, op := range ops {
 		for r := range w.pool {
@@ -535,7 +581,7 @@ func (s *workerState) binShard() {
 			byKey := map[string][]string{}
 			detail := map[string]string{}
 			var tried []string
-			for _, f := range forms {
+			for _, f := range cellForms {
 				o, ok := get(op, f, r)
 				if !ok {
 					continue
@@ -550,9 +596,9 @@ func (s *workerState) binShard() {
 				case "crash":
 					key = crashKey(o)
 				case "hang":
-					key = "hang:" + op + ":" + kinds(w, l, r)
+					key = "hang:" + opFamily[op] + ":" + kinds(w, l, r)
 				default:
-					key = "value:" + op + ":" + kinds(w, l, r)
+					key = "value:" + opFamily[op] + ":" + kindsFor(w, op, l, r)
 				}
 				k := cl + "\x00" + key
 				byKey[k] = append(byKey[k], f)
@@ -563,12 +609,12 @@ func (s *workerState) binShard() {
 			for k, fs := range byKey {
 				parts := strings.SplitN(k, "\x00", 2)
 				fi := 0
-				for i, f := range forms {
+				for i, f := range cellForms {
 					if f == fs[0] {
 						fi = i
 					}
 				}
-				s.emitFail(parts[1]+formsNote(fs, tried), parts[0], size(r, fi), caseT{Kind: "bin", Op: op, L: w.pool[l].Name, R: w.pool[r].Name, Forms: fs, Script: script(op, fs[0], r)}, detail[k])
+				s.emitFormFail(parts[1], parts[0], size(r, fi), caseT{Kind: "bin", Op: op, L: w.pool[l].Name, R: w.pool[r].Name, Forms: fs, Script: script(op, fs[0], r)}, detail[k], fs, tried)
 			}
 			// compound assignment agrees with the binary operator (variable form)
 			if co, ok := get(op, "compound", r); ok {
@@ -579,8 +625,8 @@ func (s *workerState) binShard() {
 						s.emitFail(crashKey(co), "crash", size(r, 4), caseT{Kind: "bin", Op: op, L: w.pool[l].Name, R: w.pool[r].Name, Forms: []string{"compound"}, Script: script(op, "compound", r)},
 							fmt.Sprintf("$x = %s; $x %s= %s panics: %s", w.pool[l].Name, op, w.pool[r].Name, co))
 					}
-				} else if co != vo && !(strings.HasPrefix(vo, "CRASH:")) {
-					s.emitFail("compound:"+op+"=:"+kinds(w, l, r), "compound", size(r, 4), caseT{Kind: "bin", Op: op, L: w.pool[l].Name, R: w.pool[r].Name, Forms: []string{"compound", "var"}, Script: script(op, "compound", r)},
+				} else if zeroSign(co) != zeroSign(vo) && !(strings.HasPrefix(vo, "CRASH:")) {
+					s.emitFail("compound:"+opFamily[op]+":"+kinds(w, l, r), "compound", size(r, 4), caseT{Kind: "bin", Op: op, L: w.pool[l].Name, R: w.pool[r].Name, Forms: []string{"compound", "var"}, Script: script(op, "compound", r)},
 						fmt.Sprintf("$x = %s; $x %s= %s leaves %s in $x, but $x %s %s returns %s", w.pool[l].Name, op, w.pool[r].Name, co, op, w.pool[r].Name, vo))
 				}
 			}
@@ -596,12 +642,10 @@ func (s *workerState) binShard() {
 			ab, _ := get("==", "var", r)
 			ba, _ := get("==", "swap", r)
 			s.laws++
-			if isBool(ab) && isBool(ba) && ab != ba {
-				ks := []string{w.pool[l].V.K.String(), w.pool[r].V.K.String()}
-				sort.Strings(ks)
+			if isBool(ab) && isBool(ba) && ab != ba && exprsem.BinRef("==", w.pool[l].V, w.pool[r].V).Open {
 				// report once per unordered pair: from the side where a == b is true
 				if ab == "b:1" {
-					s.emitFail("law:==symmetric:"+strings.Join(ks, "~"), "law", size(r, 0), lawCase("==", r, "var", "swap"),
+					s.emitFail("law:eq-symmetric:"+lawKinds(w, l, r), "law", size(r, 0), lawCase("==", r, "var", "swap"),
 						fmt.Sprintf("%s == %s is %s but %s == %s is %s ('== is symmetric')", w.pool[l].Name, w.pool[r].Name, ab, w.pool[r].Name, w.pool[l].Name, ba))
 				}
 			}
@@ -609,8 +653,8 @@ func (s *workerState) binShard() {
 				p, _ := get(pr[0], "var", r)
 				q, _ := get(pr[1], "var", r)
 				s.laws++
-				if isBool(p) && isBool(q) && p == q {
-					s.emitFail("law:"+pr[1]+"complement:"+kinds(w, l, r), "law", size(r, 0), lawCase(pr[1], r, "var"),
+				if isBool(p) && isBool(q) && p == q && exprsem.BinRef(pr[0], w.pool[l].V, w.pool[r].V).Open {
+					s.emitFail("law:"+opName[pr[1]]+"-complement:"+lawKinds(w, l, r), "law", size(r, 0), lawCase(pr[1], r, "var"),
 						fmt.Sprintf("%s %s %s is %s and %s %s %s is %s too ('%s and %s are complements')", w.pool[l].Name, pr[0], w.pool[r].Name, p, w.pool[l].Name, pr[1], w.pool[r].Name, q, pr[0], pr[1]))
 				}
 			}
@@ -623,6 +667,9 @@ func (s *workerState) binShard() {
 			if !isBool(lt) || !isBool(gt) || !strings.HasPrefix(sp, "i:") {
 				continue
 			}
+			if !exprsem.BinRef("<=>", w.pool[l].V, w.pool[r].V).Open && !exprsem.BinRef("<", w.pool[l].V, w.pool[r].V).Open {
+				continue // the value clause already fixes all three results
+			}
 			s.laws++
 			want := "i:0"
 			switch {
@@ -634,7 +681,7 @@ func (s *workerState) binShard() {
 				want = "contradiction"
 			}
 			if sp != want {
-				s.emitFail("law:<=>agrees:"+kinds(w, l, r), "law", size(r, 0), lawCase("<=>", r, "var"),
+				s.emitFail("law:spaceship-agrees:"+lawKinds(w, l, r), "law", size(r, 0), lawCase("<=>", r, "var"),
 					fmt.Sprintf("%s <=> %s is %s while %s < %s is %s and %s > %s is %s ('<=> agrees with < and >')", w.pool[l].Name, w.pool[r].Name, sp, w.pool[l].Name, w.pool[r].Name, lt, w.pool[l].Name, w.pool[r].Name, gt))
 			}
 		}
@@ -680,15 +727,12 @@ func (s *workerState) unShard() {
 			if cl == "" {
 				continue
 			}
-			key := "value:unary" + op + ":" + p.V.K.String()
+			key := "value:" + unName[op] + ":" + p.V.K.String()
 			switch cl {
 			case "crash":
 				key = crashKey(o)
-				if strings.HasSuffix(key, ":nil-deref") || strings.Contains(key, "@?") {
-					key = "crash:unary" + op + ":" + strings.TrimPrefix(key, "crash:")
-				}
 			case "hang":
-				key = "hang:unary" + op + ":" + p.V.K.String()
+				key = "hang:" + unName[op] + ":" + p.V.K.String()
 			}
 			k := cl + "\x00" + key
 			byKey[k] = append(byKey[k], f)
@@ -699,7 +743,7 @@ func (s *workerState) unShard() {
 		for k, fs := range byKey {
 			parts := strings.SplitN(k, "\x00", 2)
 			j, _ := w.unJob(op, fs[0], i)
-			s.emitFail(parts[1]+formsNote(fs, tried), parts[0], i, caseT{Kind: "un", Op: op, L: p.Name, Forms: fs, Script: w.batch.BareScript(j)}, detail[k])
+			s.emitFormFail(parts[1], parts[0], i, caseT{Kind: "un", Op: op, L: p.Name, Forms: fs, Script: w.batch.BareScript(j)}, detail[k], fs, tried)
 		}
 	}
 }
@@ -850,6 +894,7 @@ func main() {
 	for l := range w.pool {
 		shards = append(shards, pool.Shard{Kind: "c03", Arg: shardArg{Kind: "ctx", L: l, Tier: c.Tier, Seed: c.Seed}})
 	}
+	agg := &formAgg{by: map[string]*aggEntry{}}
 	var total, scripts, bare, exactN, laws int64
 	outcomes := map[string]int{}
 	var nolit []string
@@ -867,7 +912,10 @@ func main() {
 				outcomes[k] += v
 			}
 		case "fail":
-			c.Fail(r.Fail.Key, r.Fail.Clause, r.Fail.Size, r.Fail.Case, r.Fail.Detail)
+			if os.Getenv("C03_VERBOSE") != "" {
+				fmt.Printf("FAIL %s | %s\n", r.Fail.Key, r.Fail.Detail)
+			}
+			agg.add(r.Fail)
 		case "sample":
 			c.Sample(r.Sample)
 		case "nolit":
@@ -878,10 +926,9 @@ func main() {
 	}, func(d pool.Death) {
 		c.Fail("worker-death:"+runner.FatalFrame(d.Stderr), "crash", 0, map[string]any{"item": d.Item, "reason": d.Reason}, d.Stderr)
 	})
+	agg.flush(c)
 	for k, v := range outcomes {
-		for i := 0; i < 1; i++ {
-			c.Outcome(k)
-		}
+		c.Outcome(k)
 		c.Add("outcome:"+k, int64(v))
 	}
 	var names []string
@@ -916,6 +963,57 @@ func main() {
 	c.Finish(int64(len(shards)), total, total, fmt.Sprintf("complete table: %d binary operators x %d^2 ordered operand pairs x 4 operand forms + compound assignment + swapped ==; %d prefix operators x pool x forms; %d boolean contexts x pool x forms; states = table rows (shards), distinct = outcome classes", len(binOps), len(w.pool), len(unOps), len(contexts)))
 }
 
+// formAgg decides the ":form=" suffix of form-aggregated keys: none if the finding occurs in all
+// operand forms of at least one cell, otherwise the union of the forms it occurs in.
+type aggEntry struct {
+	best  *failRec
+	count int
+	all   bool
+	forms map[string]bool
+}
+type formAgg struct{ by map[string]*aggEntry }
+
+func (a *formAgg) add(f *failRec) {
+	e := a.by[f.Key]
+	if e == nil {
+		e = &aggEntry{forms: map[string]bool{}}
+		a.by[f.Key] = e
+	}
+	e.count++
+	if f.Forms == nil || f.AllF {
+		e.all = true
+	}
+	for _, x := range f.Forms {
+		e.forms[x] = true
+	}
+	if e.best == nil || f.Size < e.best.Size {
+		e.best = f
+	}
+}
+
+func (a *formAgg) finalKey(base string) string {
+	e := a.by[base]
+	if e == nil || e.all {
+		return base
+	}
+	var fs []string
+	for _, f := range []string{"var", "call", "elem", "lit", "self"} {
+		if e.forms[f] {
+			fs = append(fs, f)
+		}
+	}
+	return base + ":form=" + strings.Join(fs, "+")
+}
+
+func (a *formAgg) flush(c *ev.Check) {
+	for base, e := range a.by {
+		k := a.finalKey(base)
+		for i := 0; i < e.count; i++ {
+			c.Fail(k, e.best.Clause, e.best.Size, e.best.Case, e.best.Detail)
+		}
+	}
+}
+
 func replay(c *ev.Check) {
 	var cs caseT
 	key, err := ev.LoadReplay(c.Replay, &cs)
@@ -935,7 +1033,8 @@ func replay(c *ev.Check) {
 	fails := replayRow(w, cs, l, r)
 	hit := false
 	for _, f := range fails {
-		if f.Key == key {
+		if f.Key == key || strings.HasPrefix(key, f.Key+":form=") {
+			f.Key = key
 			hit = true
 			fmt.Println("reproduced:", f.Detail)
 			fmt.Println("script:\n" + f.Case.Script)
